@@ -6,7 +6,7 @@ cd "$(dirname "$0")/.."
 L=/tmp/regress; rm -rf $L; mkdir -p $L
 python3 selftest/run.py --mutants-only --out $L/mutants.json > $L/mutants.log 2>&1 &
 python3 selftest/run.py --benign-only --out $L/benign.json > $L/benign.log 2>&1 &
-for r in $(ls benign); do
+for r in $(ls -d benign/*/ | xargs -n1 basename); do
   python3 selftest/run.py --corpus-only --only benign/$r/ --out $L/corpus-$r.json > $L/corpus-$r.log 2>&1 &
 done
 for r in r1 r2 r3 r4 r5 r6 r7 r8; do
